@@ -286,7 +286,11 @@ _public_ int m_mod_ps_subscribe(m_mod_t *mod, const char *topic, m_src_flags fla
             ev_src_t *old_sub = m_map_get(mod->subscriptions, topic);
             if (old_sub) {
                 if (old_sub->flags == flags) {
-                    /* Only update userptr */
+                    /* Only update userptr: the old subscription keeps its own compiled regex */
+                    regfree(&regex);
+                    if ((flags & M_SRC_AUTOFREE) && old_sub->userptr != userptr) {
+                        memhook._free((void *)old_sub->userptr);
+                    }
                     old_sub->userptr = userptr;
                     return 0;
                 }
